@@ -51,6 +51,7 @@ def battery():
         sorted(get_schema_file("sb31").keys()),
         sorted(get_schema_file("pfr").keys()),
         sorted(get_schema_file("cert_block").keys()),
+        sorted(get_families("devhsm")),
     ]
     return hashlib.sha256(json.dumps(res, sort_keys=True, default=str).encode()).hexdigest()[:16]
 
@@ -582,6 +583,151 @@ def stress(tmpl, base, sid, init, n, r):
     return {"id": sid, "init": kinds, "truth": tmpl.truth, "ev": [norm(e) for e in evs], "sched": "stress", "init_detail": init}
 
 
+# ------------------------------------------------------------------ staleness against REAL edits of the data (spec/C18/StaleTrace.tla)
+EDITS = ("main-device", "overlay-addons", "overlay-restricted", "new-device", "cached-config")
+
+
+def private_data(base, name):
+    """A private data folder made of symbolic links to the real one, so that single files can be replaced by edited copies."""
+    import spsdk
+
+    real = os.path.join(os.path.dirname(os.path.abspath(spsdk.__file__)), "data")
+    d = os.path.join(base, name)
+    for top in os.listdir(real):
+        src = os.path.join(real, top)
+        if top in ("devices", "common", "jsonschemas") and os.path.isdir(src):
+            os.makedirs(os.path.join(d, top))
+            for f in os.listdir(src):
+                os.symlink(os.path.join(src, f), os.path.join(d, top, f))
+        else:
+            os.makedirs(d, exist_ok=True)
+            os.symlink(src, os.path.join(d, top))
+    return d, real
+
+
+def edited_device(real, dev, dst_dir):
+    """Copy of a device folder whose database.yaml lacks the devhsm feature (files other than database.yaml are linked)."""
+    import yaml
+
+    os.makedirs(dst_dir)
+    src = os.path.join(real, "devices", dev)
+    for f in os.listdir(src):
+        if f != "database.yaml":
+            os.symlink(os.path.join(src, f), os.path.join(dst_dir, f))
+    cfg = yaml.safe_load(open(os.path.join(src, "database.yaml")))
+    cfg["features"].pop("devhsm")
+    for rev in (cfg.get("revisions") or {}).values():
+        ((rev or {}).get("features") or {}).pop("devhsm", None)
+    with open(os.path.join(dst_dir, "database.yaml"), "w") as f:
+        yaml.safe_dump(cfg, f, sort_keys=False)
+
+
+def fresh_battery(env_extra, cache_dir, disabled=False):
+    code = ("import sys, json, logging; logging.disable(logging.CRITICAL)\n"
+            f"sys.path.insert(0, {os.path.dirname(os.path.abspath(__file__))!r})\n"
+            "import c18\n"
+            "print(json.dumps({'digest': c18.battery()}))\n")
+    env = dict(os.environ, SPSDK_CACHE_FOLDER=cache_dir, PYTHONPATH=os.environ.get("PYTHONPATH", REPO), **env_extra)
+    if disabled:
+        env["SPSDK_CACHE_DISABLED"] = "1"
+    p = subprocess.run([sys.executable, "-c", code], env=env, capture_output=True, text=True, timeout=600)
+    if p.returncode == 0 and p.stdout.strip():
+        return {"ok": True, "digest": json.loads(p.stdout.strip().splitlines()[-1])["digest"], "msg": ""}
+    return {"ok": False, "digest": "none", "msg": ((p.stderr or "").strip().splitlines() or ["?"])[-1][:200]}
+
+
+def stale_scenario(job):
+    """One history: reference run, two runs with the cache (build, re-use), ONE real edit of the data, reference run, two runs with the cache."""
+    base, kind = job
+    import spsdk
+    import yaml
+
+    root = os.path.join(base, f"stale-{kind}")
+    data, real = private_data(root, "data")
+    addons = os.path.join(root, "addons")
+    os.makedirs(os.path.join(addons, "devices"))
+    os.makedirs(os.path.join(addons, "common"))
+    restricted = os.path.join(root, "restricted")
+    os.makedirs(os.path.join(restricted, "data", "devices"))
+    os.makedirs(os.path.join(restricted, "data", "common"))
+    with open(os.path.join(restricted, "metadata.yaml"), "w") as f:
+        f.write(f'version: "{spsdk.version.major}.{spsdk.version.minor}"\n')
+    env = {"SPSDK_DATA_FOLDER": data, "SPSDK_ADDONS_DATA_FOLDER": addons, "SPSDK_RESTRICTED_DATA_FOLDER": restricted}
+    cache, tcache = os.path.join(root, "cache"), os.path.join(root, "truth-cache")      # the reference mode clears its cache folder: it gets its own
+    os.makedirs(cache)
+    os.makedirs(tcache)
+    dev = "lpc55s36"
+    cfg = yaml.safe_load(open(os.path.join(real, "devices", dev, "database.yaml")))
+    if "devhsm" not in cfg.get("features", {}):
+        raise Machinery(f"{dev} has no devhsm feature to drop")
+    evs = []
+
+    def run(mode):
+        r_ = fresh_battery(env, tcache if mode == "truth" else cache, disabled=(mode == "truth"))
+        evs.append({"ev": "Run", "mode": mode, "ok": r_["ok"], "digest": r_["digest"], "effective": True, "kind": "none", "msg": r_["msg"]})
+        return r_["digest"]
+
+    t0 = run("truth")
+    run("cache")
+    run("cache")
+    if kind == "main-device":
+        os.remove(os.path.join(data, "devices", dev))
+        edited_device(real, dev, os.path.join(data, "devices", dev))
+    elif kind == "overlay-addons":
+        edited_device(real, dev, os.path.join(addons, "devices", dev))
+    elif kind == "overlay-restricted":
+        edited_device(real, dev, os.path.join(restricted, "data", "devices", dev))
+    elif kind == "new-device":
+        os.symlink(os.path.join(real, "devices", dev), os.path.join(data, "devices", "zz9verif"))
+    elif kind == "cached-config":
+        sch = os.path.join(data, "jsonschemas", "sch_mbi.yaml")
+        c = yaml.safe_load(open(sch))
+        os.remove(sch)
+        c["zz_verif_added"] = {"type": "string"}
+        with open(sch, "w") as f:
+            yaml.safe_dump(c, f, sort_keys=False)
+    else:
+        raise Machinery(f"unknown edit {kind}")
+    evs.append({"ev": "Edit", "mode": "none", "ok": True, "digest": "none", "effective": True, "kind": kind, "msg": ""})
+    t1 = run("truth")
+    evs[-2]["effective"] = t1 != t0 and t1 != "none"
+    run("cache")
+    run("cache")
+    return {"id": f"stale-{kind}", "ev": evs, "kind": kind}
+
+
+def stale_lane(v, base, tier):
+    traces = pmap(stale_scenario, [(base, k) for k in EDITS], chunksize=1)
+    for t in traces:
+        ed = next(e for e in t["ev"] if e["ev"] == "Edit")
+        if not ed["effective"] and all(e["ok"] for e in t["ev"]):
+            raise Machinery(f"stale lane: the edit {t['kind']} does not change the reference answers (the scenario would prove nothing)")
+    good = {"id": "stale-canary-good", "ev": [{"ev": "Run", "mode": "truth", "ok": True, "digest": "a", "effective": True, "kind": "none", "msg": ""},
+                                             {"ev": "Run", "mode": "cache", "ok": True, "digest": "a", "effective": True, "kind": "none", "msg": ""},
+                                             {"ev": "Edit", "mode": "none", "ok": True, "digest": "none", "effective": True, "kind": "x", "msg": ""},
+                                             {"ev": "Run", "mode": "truth", "ok": True, "digest": "b", "effective": True, "kind": "none", "msg": ""},
+                                             {"ev": "Run", "mode": "cache", "ok": True, "digest": "b", "effective": True, "kind": "none", "msg": ""}]}
+    bad = json.loads(json.dumps(good))
+    bad["id"] = "stale-canary-bad"
+    bad["ev"][-1]["digest"] = "a"            # the answers of the data as they were before the edit
+    rej, _ = tlc.tv("C18", "StaleTrace", [good, bad])
+    if set(rej) != {"stale-canary-bad"}:
+        raise Machinery(f"stale lane canary failed: rejected {sorted(rej)}")
+    rej, _ = tlc.tv("C18", "StaleTrace", [{"id": t["id"], "ev": t["ev"]} for t in traces])
+    v.count(len(traces))
+    v.traces(len(traces))
+    for t in traces:
+        v.nontrivial("stale:" + t["kind"])
+    for tid, (matched, length, evname) in rej.items():
+        t = next(x for x in traces if x["id"] == tid)
+        e = t["ev"][min(matched, len(t["ev"]) - 1)]
+        what = "fatal" if not e["ok"] else ("stale-cache-trusted" if e["mode"] == "cache" else "reference-run")
+        v.violation(f"C18/stale/{t['kind']}/{what}", f"data edit '{t['kind']}': event #{matched + 1} {json.dumps(e)[:300]} - a process using the cache does not answer as a process "
+                    "with the cache disabled does on the edited data", {"stale": True, "kind": t["kind"], "events": t["ev"]})
+    v.extra["stale_lane"] = {"edits": list(EDITS), "rejected": sorted(rej)}
+    say(f"[C18] stale lane: {len(traces)} real edits of the data between runs ({v.timer.s()}s)")
+
+
 def key_of(t, matched):
     e = t["ev"][min(matched, len(t["ev"]) - 1)]
     init = "+".join(f"{f}={t['init'][f]}" for f in FILES) + ("" if t["init"].get("dir", True) else "+nofolder")
@@ -715,6 +861,7 @@ def run(tier):
         e = t["ev"][min(matched, len(t["ev"]) - 1)]
         v.violation(key_of(t, matched), f"scenario {tid} init={t['init_detail']}: event #{matched + 1} {json.dumps(e)[:300]} is not a step of FsEnv + monitor",
                     {"id": tid, "init": t["init_detail"], "sched": t["sched"] if t["sched"] == "stress" else compress(t["sched"]), "events": t["ev"][max(0, matched - 12):matched + 2]})
+    stale_lane(v, base, tier)
     v.cov["rule"] = ("scenarios = TLC-simulated schedules of the I-spec (2 processes, <= 1 kill, every initial file kind) replayed on real forked processes by "
                      "interposition + solo first use on every damaged state (missing/empty/stale/wrong type/garbage/prefixes of the valid file) + late kills + "
                      "alternating two-process races + unsynchronised fresh interpreters; every scenario ends with an epilogue process and an independent "
@@ -744,6 +891,16 @@ def replay(path):
     w = json.load(open(path))["witness"]
     base = os.path.join(scratch(), "c18")
     os.makedirs(base, exist_ok=True)
+    if w.get("stale"):
+        t = stale_scenario((base, w["kind"]))
+        for e in t["ev"]:
+            say(json.dumps(e))
+        rej, _ = tlc.tv("C18", "StaleTrace", [{"id": t["id"], "ev": t["ev"]}])
+        if rej:
+            say(f"VIOLATION property=C18 replay={path}")
+            return 1
+        say("replay: trace accepted")
+        return 0
     tmpl = Template(base)
     r = rng(PROP, "replay")
     if w["sched"] == "stress":
